@@ -72,7 +72,15 @@ pub fn gen_op(rng: &mut Rng, spec: &WorldSpec, alphabet: usize) -> OpSpec {
         2 => Op::Create { path: newp(rng), kind: CreateKind::Symlink((*rng.pick(&["target", "../x", "/abs/olute", "a/b/", ".", "dangling/../x"])).to_string()) },
         3 => Op::Create { path: newp(rng), kind: CreateKind::Hardlink(existing(rng)) },
         4 => Op::Create { path: newp(rng), kind: CreateKind::Fifo(0o600) },
-        5 => Op::Create { path: newp(rng), kind: CreateKind::Chr(0o666, libc::makedev(1, 3)) },
+        5 => {
+            // device numbers with more than 8 bits of major / minor (a truncating cast keeps 8)
+            let dev = *rng.pick(&[libc::makedev(1, 3), libc::makedev(1, 3), libc::makedev(259, 300), libc::makedev(4095, 1_048_575), libc::makedev(0, 256), libc::makedev(256, 0)]);
+            if rng.chance(1, 3) {
+                Op::Create { path: newp(rng), kind: CreateKind::Blk(0o660, dev) }
+            } else {
+                Op::Create { path: newp(rng), kind: CreateKind::Chr(0o666, dev) }
+            }
+        }
         6 => Op::Create { path: existing(rng), kind: CreateKind::Dir(0o755) },
         7 if facade_c => Op::Create { path: newp(rng), kind: CreateKind::RawMknod(*rng.pick(&[0o644u32, libc::S_IFREG | 0o600, libc::S_IFSOCK | 0o600, 0o170000 | 0o600, libc::S_IFDIR | 0o700, libc::S_IFIFO | 0o640]), 0) },
         7 | 8 | 9 => Op::CreateFile {
